@@ -45,7 +45,7 @@ def run_native(prop, tier, seed):
         return None
     out = os.path.join(EVID, 'replay', f'{prop}.native.json')
     os.makedirs(os.path.dirname(out), exist_ok=True)
-    env = dict(os.environ, PYTHONPATH=f'{REPO}:{HERE}', MPLBACKEND='Agg', OMP_NUM_THREADS='1', OPENBLAS_NUM_THREADS='1')
+    env = dict(os.environ, PYTHONPATH=f'{REPO}:{HERE}', REPO_ROOT=REPO, MPLBACKEND='Agg', OMP_NUM_THREADS='1', OPENBLAS_NUM_THREADS='1', MKL_NUM_THREADS='1')
     cmd = [NATIVE_PY, os.path.join(HERE, 'native', 'run.py'), prop, '--tier', tier, '--seed', str(seed), '--out', out]
     t0 = time.time()
     try:
